@@ -17,7 +17,7 @@ import re
 import sys
 
 from .. import build, run, p21fam, model
-from .. import c18_gen, c18_probes
+from .. import c18_gen, c18_probes, c18_matrix
 
 DUMPER = os.path.join(os.path.dirname(os.path.dirname(os.path.abspath(__file__))), 'c18_dump.py')
 
@@ -97,6 +97,10 @@ def aggr_diff(s, t, d):
     if el.kind == 'aggr':
         return aggr_diff(s, el, d['elem'])
     if isinstance(d['elem'], dict):
+        if el.kind == 'named':
+            u = s.underlying(el)
+            if not isinstance(u, model.TypeDef) and u.kind == 'aggr':
+                return aggr_diff(s, u, d['elem'])    # LIST OF a1 (a1 a defined aggregate) exposed as the nested aggregate: same underlying type
         return ('', 'nesting differs')
     if el.kind in model.SIMPLE:
         ok, shape = {el.kind}, ' of %s' % el.kind
@@ -222,6 +226,15 @@ def compare(s, dump):
                     continue
                 if isinstance(u, model.TypeDef) and u.kind == 'select' and d['kind'] == 'select' and set(d['members']) == set(E(m) for m in u.members):
                     continue
+                if not isinstance(u, model.TypeDef) and u.kind == 'aggr':
+                    # TYPE a2 = a1 (a1 a defined aggregate): like a renamed enumeration / select, an equal aggregate descriptor is a
+                    # definition with the declared underlying type
+                    shape = 'rename of defined aggregate'
+                    if d['kind'] == 'aggr':
+                        bad = aggr_diff(s, u, d)
+                        if bad:
+                            out.append(('typedef|%s%s|%s' % (shape, bad[0], bad[1]), '%s: %s, declared %s = %s' % (k, aggr_got(d), b.text(), u.text())))
+                        continue
             if b.kind == 'named':
                 bd = defs.get(E(b.name))
                 if bd and bd['kind'] == 'alias':
@@ -355,7 +368,7 @@ def judge(chk, bdir, s):
         if rc.rc != 0:
             m = re.search(r'line (\d+)', rc.err)
             line = py.splitlines()[int(m.group(1)) - 1] if m and int(m.group(1)) <= len(py.splitlines()) else ''
-            exc = (re.findall(r'^(\w+Error)', rc.err, re.M) or ['error'])[-1]
+            exc = (re.findall(r'^(\w+Error)', rc.err, re.M) or re.findall(r'\b(\w+Error):', rc.err) or ['error'])[-1]
             res['found'].append(('compile|%s in %s|%s' % (special_on_line(s, line), line_role(line), exc),
                                  'line %s: %s || %s' % (m.group(1) if m else '?', line.strip()[:200], rc.err.strip().splitlines()[-1][:200]), files))
             return res
@@ -406,8 +419,14 @@ def cover(chk, s, res):
     chk.tag('stage reached:' + res['stage'])
     # one judged generator run per schema; schemas differ in inheritance shapes / identifier features / data features
     chk.seen('schema', res['stage'], tuple(sorted(t for t in s.tags if t.startswith(('shape:', 'id:', 'data:')))) or s.name)
+    mx = getattr(s, 'matrix', None)
+    if mx:
+        chk.count('matrix_%s_shapes' % mx[0])
     if res['dump'] is None:
         return
+    if mx:
+        chk.seen('matrix', *mx)       # one fixed shape of vf/c18_matrix.py whose module was imported and compared
+        chk.count('matrix_%s_shapes_compared' % mx[0])
     for e in s.entities:
         full, _short = expected_params(s, e.name)
         chk.seen('entity', entity_shape(s, e.name), min(len(full), 6), c18_gen.id_class(e.name))
@@ -430,6 +449,7 @@ def main(chk):
     avoid, avoid_shared = c18_probes.masks(chk.open_keys)
     schemas = c18_gen.corpus(chk.seed, n, avoid, avoid_shared)
     cases = [('random', s, None) for s in schemas] + [('probe', p.schema(), p) for p in c18_probes.active(chk.open_keys)]
+    cases += [('matrix', s, None) for s in c18_matrix.schemas()]
 
     def work(c):
         return c, judge(chk, bdir, c[1])
@@ -453,7 +473,9 @@ def main(chk):
         chk.sample(dict(schema=cases[0][1].name, express_head=cases[0][1].text()[:600], verdict='see known findings: no schema reached the comparison stage'))
     return chk.finish(
         rule='schemas from vf/c18_gen.py (seeded: shared data-schema generator + inheritance shapes x Python-keyword/builtin identifiers in every role) '
-             'plus the fixed probes of vf/c18_probes.py; each case = exp2python, py_compile, import+introspection in a subprocess; '
+             'plus the fixed probes of vf/c18_probes.py plus the seed-independent matrix of vf/c18_matrix.py (defined-type chains of length 1..4 over '
+             'every simple type / aggregate / select / enumeration x use x declaration order x WHERE rules; entity own-attribute populations '
+             'none/explicit/DERIVE/INVERSE and combinations x position in the hierarchy; one schema per shape); each case = exp2python, py_compile, import+introspection in a subprocess; '
              'distinct_nontrivial = distinct (stage reached, inheritance-shape/identifier/data feature set) schemas whose generator run was judged, plus distinct '
              '(entity inheritance shape, number of constructor parameters, identifier class) / (type kind, size or base shape, identifier class) tuples '
              'whose generated definition was compared with the schema (none of the latter while the generator dies on every entity attribute)',
@@ -462,4 +484,8 @@ def main(chk):
                      'identifier escaping accepted: <id>_ for Python hard keywords and `property`; inherited<N>__ prefix on inherited parameters',
                      'a constructor may or may not list inherited attributes that the entity redeclares as DERIVEd (both accepted)',
                      'UNIQUE / OPTIONAL flags of aggregate types are not compared (the statement asks for the underlying type)',
+                     'a defined type renaming a defined aggregate may be an equal aggregate descriptor (as a renamed enumeration / select may be an '
+                     'equal enumeration / select); an aggregate OF a defined aggregate may be exposed as the nested aggregate',
+                     'DERIVEd / INVERSE attributes are not judged beyond the module compiling and importing (the statement names the constructor '
+                     'parameters = explicit attributes only)',
                      'randomized workload masks features %s (each exercised by a deterministic probe of an open finding)' % sorted(avoid | set('shared:' + x for x in avoid_shared))])
